@@ -70,10 +70,31 @@ pub fn emit_for_signal(otlp: &Otlp, sig: Signal, vid: i64, pad: &str) {
 pub fn capture_internal(sink: std::sync::Arc<std::sync::Mutex<Vec<String>>>) {
     let _ = emit::setup()
         .emit_to(emit::runtime::AssertInternal(emit::emitter::from_fn(move |evt| {
+            let msg = format!("{}", evt.msg());
+            // requests the client gave up on because its own timeout elapsed, per collector port
+            if msg.contains("within its timeout") {
+                if let Some(port) = port_of(&msg) {
+                    *CLIENT_TIMEOUTS.lock().unwrap().entry(port).or_insert(0) += 1;
+                }
+            }
             let mut g = sink.lock().unwrap();
             if g.len() < 2000 {
-                g.push(format!("{}", evt.msg()));
+                g.push(msg);
             }
         })))
         .init_internal();
+}
+
+static CLIENT_TIMEOUTS: std::sync::Mutex<std::collections::BTreeMap<u16, u64>> = std::sync::Mutex::new(std::collections::BTreeMap::new());
+
+fn port_of(msg: &str) -> Option<u16> {
+    let rest = &msg[msg.find("127.0.0.1:")? + "127.0.0.1:".len()..];
+    rest.chars().take_while(|c| c.is_ascii_digit()).collect::<String>().parse().ok()
+}
+
+/// How many requests to these collector ports the client has abandoned on its own timeout so
+/// far (the emitter reports each in its diagnostics before it retries).
+pub fn client_timeouts(ports: &[u16]) -> u64 {
+    let g = CLIENT_TIMEOUTS.lock().unwrap();
+    ports.iter().map(|p| g.get(p).copied().unwrap_or(0)).sum()
 }
